@@ -579,7 +579,8 @@ def _batched(res, rng, thorough):
 
     workers = range(1, 5) if not thorough else range(1, 17)
     stacks = []
-    for name, n, k in (("triclinic", 14, 5), ("orthorhombic", 10, 4)) + ((("hexagonal", 8, 7), ("triclinic", 6, 1)) if thorough else ()):
+    # stack lengths below, equal to and above the worker counts ("all stack lengths and all worker counts")
+    for name, n, k in (("triclinic", 14, 5), ("orthorhombic", 10, 4), ("triclinic", 6, 2), ("triclinic", 5, 1)) + ((("hexagonal", 8, 7),) if thorough else ()):
         st = np.stack([_textures(rng, n, ["uniform", "clustered", "girdle", "single"][j % 4]) for j in range(k)])
         stacks.append((name, st))
     for name, st in stacks:
@@ -587,7 +588,13 @@ def _batched(res, rng, thorough):
         seq = np.array([D.misorientation_index(s, sysm) for s in st])
         rep = {"system": name, "stack_shape": list(st.shape)}
         for w in workers:
-            got = np.asarray(D.misorientation_indices(st, sysm, ncpus=w))
+            try:
+                got = np.asarray(D.misorientation_indices(st, sysm, ncpus=w))
+            except Exception as e:  # noqa: BLE001
+                res.evaluations += 1
+                res.violation(f"batched:raises:{type(e).__name__}", f"misorientation_indices(stack of {len(st)}, ncpus={w}) raised {type(e).__name__}: {e}",
+                              dict(rep, ncpus=w))
+                continue
             res.evaluations += 1
             res.count(f"batched:ncpus={w}")
             res.nontrivial(("batched", name, w, st.shape))
